@@ -3,6 +3,7 @@
 //! lines for the SMT translation validator (`/verif/lib/tv_engine.py`).
 mod ops;
 mod ctxgen;
+mod jit;
 
 use fidget_core::compiler::{RegOp, RegTape, SsaOp, SsaTape};
 use fidget_core::eval::{BulkEvaluator, Function, TracingEvaluator};
@@ -445,6 +446,8 @@ fn main() {
             names.extend(REGREG.iter().map(|u| u.name.to_string()));
             println!("{}", jstr_list(&names));
         }
+        "jit" => jit::mode_jit(&args[2..]),
+        "jitrun" => jit::mode_jitrun(&args[2..]),
         m if ctxgen::dispatch(m, &args[2..]) => (),
         m => panic!("unknown mode {m}"),
     }
